@@ -748,7 +748,8 @@ class StretchyTreeMatcher:
             std_field = stdTup[0]
             std_value = stdTup[1]
 
-            if ins_value is None:
+            # An absent optional field places no demand, but the None literal is content
+            if ins_value is None and not (isinstance(ins, ast.Constant) and ins_field == "value"):
                 continue
 
             ignore_field = ins_field in ignores
